@@ -59,6 +59,14 @@ func VerifC03Script() {
 	}
 	n := verifIntRange("packets", 1, verifParam("maxpackets", 2))
 	withOnResult := verifChoice("onresult", 2) == 1
+	// telemetry callbacks: the batch form, the deprecated per-item form, or both (batch first)
+	cbStyle := verifChoice("telemetry-callbacks", verifParam("cbstyles", 3))
+	telemetry := func(e vEvent) []vEvent {
+		if cbStyle == 2 {
+			return []vEvent{e, e}
+		}
+		return []vEvent{e}
+	}
 	failAt := verifIntRange("failing-callback", -1, verifParam("maxfail", 0)) // index of the callback invocation that fails
 
 	var script rb
@@ -122,7 +130,7 @@ func VerifC03Script() {
 				{name: "source", typ: "String", isStr: true, strs: []string{"s"}},
 				{name: "text", typ: "String", isStr: true, strs: []string{text}},
 			}, v)
-			want = append(want, vEvent{kind: 4, rows: 1, text: text})
+			want = append(want, telemetry(vEvent{kind: 4, rows: 1, text: text})...)
 		case pkProfileEvents:
 			val := verifU64("pe.value")
 			script.uv(14)
@@ -135,7 +143,7 @@ func VerifC03Script() {
 				{name: "name", typ: "String", isStr: true, strs: []string{"n"}},
 				{name: "value", typ: "UInt64", u64: []uint64{val}},
 			}, v)
-			want = append(want, vEvent{kind: 5, rows: 1, value: int64(val)})
+			want = append(want, telemetry(vEvent{kind: 5, rows: 1, value: int64(val)})...)
 		case pkException:
 			depth := verifIntRange("chain", 1, verifParam("maxchain", 3))
 			script.uv(2)
@@ -192,21 +200,33 @@ func VerifC03Script() {
 		got = append(got, vEvent{kind: 3, prof: p})
 		return fail()
 	}
-	q.OnLogs = func(ctx context.Context, l []Log) error {
-		ev := vEvent{kind: 4, rows: len(l)}
-		if len(l) > 0 {
-			ev.text = l[0].Text
+	if cbStyle != 1 {
+		q.OnLogs = func(ctx context.Context, l []Log) error {
+			ev := vEvent{kind: 4, rows: len(l)}
+			if len(l) > 0 {
+				ev.text = l[0].Text
+			}
+			got = append(got, ev)
+			return fail()
 		}
-		got = append(got, ev)
-		return fail()
+		q.OnProfileEvents = func(ctx context.Context, e []ProfileEvent) error {
+			ev := vEvent{kind: 5, rows: len(e)}
+			if len(e) > 0 {
+				ev.value = e[0].Value
+			}
+			got = append(got, ev)
+			return fail()
+		}
 	}
-	q.OnProfileEvents = func(ctx context.Context, e []ProfileEvent) error {
-		ev := vEvent{kind: 5, rows: len(e)}
-		if len(e) > 0 {
-			ev.value = e[0].Value
+	if cbStyle != 0 {
+		q.OnLog = func(ctx context.Context, l Log) error {
+			got = append(got, vEvent{kind: 4, rows: 1, text: l.Text})
+			return fail()
 		}
-		got = append(got, ev)
-		return fail()
+		q.OnProfileEvent = func(ctx context.Context, e ProfileEvent) error {
+			got = append(got, vEvent{kind: 5, rows: 1, value: e.Value})
+			return fail()
+		}
 	}
 	err := c.Do(context.Background(), q)
 
